@@ -828,6 +828,38 @@ type c18Scenario struct {
 	// Global command line flags placed before the sub-command (values documented for --enabled / --disabled:
 	// check names, name(tag) and name(+tag) forms, regexps): the configuration pint runs with is file + flags
 	Flags []string `json:"flags,omitempty"`
+	// Files: further files of the scenario's tree (path relative to the working directory -> content); when set, Rules
+	// may be empty (no rules/0.yml is written then)
+	Files map[string]string `json:"files,omitempty"`
+}
+
+// c18DiscoveryStratum: discovery templates whose fields are rendered from a part of the discovered PATH, crossed with
+// directory names that contain regexp / template / URL metacharacters.  A template can only be checked once concrete
+// values exist, so these configurations are all accepted at load; whatever the rendered value is, the run must end
+// with a report or a regular error, not a panic.
+func c18DiscoveryStratum(promURL string) []c18Scenario {
+	dirs := []string{"ok", "eu(legacy", "a[b", "*x", "x y", "a|b", `\Qx`, "{{x", "eu(legacy)", "+", "x)y", "%zz"}
+	fields := []struct{ tag, body string }{
+		{"name", "      name = \"{{ $cluster }}\"\n      uri = %q\n"},
+		{"uri", "      name = \"d\"\n      uri = \"%s/{{ $cluster }}\"\n"},
+		{"publicURI", "      name = \"d\"\n      uri = %q\n      publicURI = \"http://{{ $cluster }}.example.com\"\n"},
+		{"include", "      name = \"d\"\n      uri = %q\n      include = [\"rules/{{ $cluster }}/.*\"]\n"},
+		{"exclude", "      name = \"d\"\n      uri = %q\n      exclude = [\"rules/{{ $cluster }}/.*\"]\n"},
+		{"tags", "      name = \"d\"\n      uri = %q\n      tags = [\"{{ $cluster }}\"]\n"},
+		{"failover", "      name = \"d\"\n      uri = %q\n      failover = [\"http://{{ $cluster }}.example.com\"]\n"},
+		{"headers", "      name = \"d\"\n      uri = %q\n      headers = { \"X-{{ $cluster }}\" = \"{{ $cluster }}\" }\n"},
+		{"timeout", "      name = \"d\"\n      uri = %q\n      timeout = \"{{ $cluster }}\"\n"},
+	}
+	rules := "groups:\n- name: g\n  rules:\n  - alert: A\n    expr: up == 0\n  - record: r\n    expr: sum(up)\n"
+	var out []c18Scenario
+	for _, d := range dirs {
+		for _, f := range fields {
+			cfg := "discovery {\n  filepath {\n    directory = \"rules\"\n    match = \"(?P<cluster>[^/]+)/.*\"\n    template {\n" + fmt.Sprintf(f.body, promURL) + "    }\n  }\n}\n"
+			out = append(out, c18Scenario{ID: fmt.Sprintf("disc-%d-%s", len(out), f.tag), Config: cfg, Online: true,
+				Files: map[string]string{"rules/" + d + "/0.yml": rules}, Tags: []string{"toplevel-stratum", "discovery.rendered." + f.tag}})
+		}
+	}
+	return out
 }
 
 // c18FlagStratum: the documented forms of --disabled / --enabled (a check name, a regexp over check names, the
@@ -1235,6 +1267,9 @@ func c18Configs(r *rand.Rand, rep *runReport, cwd string, n int, strata bool) {
 	if !strata {
 		ts = nil
 	}
+	if strata {
+		ts = append(ts, c18DiscoveryStratum(srv.URL)...)
+	}
 	for _, sc := range ts {
 		rep.hist("cfg:stratum=" + sc.Tags[1])
 	}
@@ -1279,7 +1314,12 @@ func c18Configs(r *rand.Rand, rep *runReport, cwd string, n int, strata bool) {
 		sc := scens[i]
 		dir := filepath.Join(cwd, "cfg", fmt.Sprintf("s%04d", i))
 		writeFile(filepath.Join(dir, ".pint.hcl"), sc.Config)
-		writeFile(filepath.Join(dir, "rules", "0.yml"), sc.Rules)
+		if sc.Rules != "" || len(sc.Files) == 0 {
+			writeFile(filepath.Join(dir, "rules", "0.yml"), sc.Rules)
+		}
+		for name, content := range sc.Files {
+			writeFile(filepath.Join(dir, name), content)
+		}
 		// load verdict: `pint config` only loads and prints the configuration
 		base := append([]string{"--no-color", "-c", ".pint.hcl"}, sc.Flags...)
 		// load verdict: `pint config` (loads and prints the configuration).  For the systematic strata the verdict is read
@@ -1331,7 +1371,7 @@ func c18Configs(r *rand.Rand, rep *runReport, cwd string, n int, strata bool) {
 		o := out[i]
 		loadCrashed := o.loadRC < 0 || o.loadRC > 1 || strings.Contains(o.loadErr, "panic:") || strings.Contains(o.loadErr, "fatal error:")
 		accepted := o.loadRC == 0
-		rep.count("cfg|"+sc.Config+"|"+sc.Rules, accepted && strings.Contains(sc.Config, "{{"))
+		rep.count("cfg|"+sc.Config+"|"+sc.Rules+"|"+strings.Join(sortedKeys(sc.Files), ","), accepted && strings.Contains(sc.Config, "{{"))
 		rep.hist("case=config")
 		if accepted {
 			rep.hist("cfg:accepted")
